@@ -3,11 +3,18 @@
    read off the source on every run (GenOps: no statement of those methods assigns to an attribute of `self` or calls a
    mutator on one); (ii) what streamline() does to operands and composites when a composite is first used — splicing an
    action-free unnamed inner And (first position) / MatchFirst (either position) into the enclosing one — preserves the
-   reading (proved below on `peg`, tied to the parser by C01); (iii) the sugar equivalences are equalities of the constructed
-   object graphs: checked by the correspondence of tools/props/c12.py (real objects of both sides dumped and compared, and
-   parsed on the same inputs), not proved; last-position And flattening and Or/Each flattening: correspondence only. *)
+   reading (proved below on `peg`, tied to the parser by C01); (iii) the operator sugar is INSIDE the model (Model/Sugar.v:
+   transcriptions of __mul__ / __getitem__ / __or__ / _PendingSkip.__add__ producing the streamlined graph, source text pinned
+   by Proofs/SugarTie.v, elaboration compared node by node with dumps of the real objects by tools/props/c12.py) and the
+   documented equivalences are theorems about the elaboration (names C12_sugar_...): equal TERMS for expr[...], expr[0,...],
+   expr[1,...], expr[n,...], expr[...:stop], expr|'', expr[n] / expr*n, expr[m,n] (nested Opt), (a+b)+c = a+(b+c); equal READINGS
+   (every fuel, every numbering of nodes) for expr*n = expr+...+expr and And([a,b,c]) = (a+b)+c, with transfer to `_parse` for
+   operands of the proved class; closed counter-examples (_refuted) where an equivalence fails for operands with whitespace
+   settings of their own, and for expr*0.  Still by correspondence only: the flat reading of expr[m,n] ("m copies plus up to
+   n-m Opt(expr)" as a flat sequence), Or/Each flattening, `a | ...`, `... + a`. *)
 From Coq Require Import List ZArith NArith Bool String.
-From PP Require Import Model.Str Model.Results Model.Prog Model.Core Model.Peg Proofs.PegEquiv Proofs.Flatten Gen.GenOps.
+From PP Require Import Model.Str Model.Results Model.Prog Model.Core Model.Peg Model.Infix Model.Sugar
+                       Proofs.PegEquiv Proofs.InfixProofs Proofs.Flatten Proofs.SugarProofs Proofs.SugarTie Gen.GenOps Gen.GenSugar.
 Import ListNotations.
 
 Theorem C12_operators_do_not_write_operands :
@@ -44,6 +51,196 @@ Theorem C12_matchfirst_assoc_last : forall (G : env) s f ao ai a0 es2 loc r,
   peg G s (S (S f)) (Nary ao [] NMatchFirst [a0; Nary ai [] NMatchFirst es2]) loc = r -> r <> POut ->
   peg G s (S (S f)) (Nary ao [] NMatchFirst (a0 :: es2)) loc = r.
 Proof. exact mf_flatten_last. Qed.
+
+(* ================================================================================================================= *)
+(* The operator sugar, inside the model (Model/Sugar.v: transcriptions of __mul__ / __getitem__ / __or__ /              *)
+(* _PendingSkip.__add__, producing the streamlined object graph; tied to the code by Proofs/SugarTie.v (source text) and *)
+(* by the node-by-node comparison with dumps of the real objects in tools/props/c12.py sugar_elab_checks).              *)
+(* `ids` numbers the nodes an operator creates; it is universally quantified everywhere.                                 *)
+(* ================================================================================================================= *)
+
+(* the transcribed methods are the ones in the source now *)
+Theorem C12_sugar_source_pinned :
+  gen_sugar_splice_test = "len(self.exprs) == 2"%string /\
+  gen_sugar_splice_assigns = ["self.exprs = other.exprs[:] + [self.exprs[1]]"; "self.exprs = self.exprs[:-1] + other.exprs[:]"]%string /\
+  gen_sugar_stopon = "if isinstance(ender, str_type): ender = self._literalStringClass(ender) ; self.not_ender = ~ender if ender is not None else None ; return self"%string /\
+  gen_sugar_add = "if other is Ellipsis: return _PendingSkip(self) ; if isinstance(other, str_type): other = self._literalStringClass(other) ; if not isinstance(other, ParserElement): return NotImplemented ; return And([self, other])"%string.
+Proof. exact (conj tie_splice_test (conj tie_splice_assigns (conj tie_stopon tie_add))). Qed.
+
+(* ---- equalities of the elaborated TERMS (same nodes, flags, children, sharing): stronger than equal readings ---- *)
+(* expr[...] == expr[0, ...] == ZeroOrMore(expr) *)
+Theorem C12_sugar_star : forall dw ids e, sg_star dw ids e = c_zom ids cREP e /\ sg_star0 dw ids e = c_zom ids cREP e.
+Proof. exact (fun dw ids e => conj (star_eq dw ids e) (star0_eq dw ids e)). Qed.
+
+(* expr[1, ...] == OneOrMore(expr) *)
+Theorem C12_sugar_plus : forall dw ids e, sg_plus dw ids e = c_oom ids cREP e.
+Proof. exact plus_eq. Qed.
+
+(* expr[n, ...] == expr*n + ZeroOrMore(expr) *)
+Theorem C12_sugar_atleast : forall dw ids n e, 2 <= n -> sg_atleast dw ids n e = x_atleast dw ids n e.
+Proof. exact atleast_eq. Qed.
+
+(* expr[...:stop] == ZeroOrMore(expr, stop_on=stop) *)
+Theorem C12_sugar_until : forall dw ids e stop, sg_until dw ids e stop = c_zom_stop ids cREP cNOT e stop.
+Proof. exact until_eq. Qed.
+
+(* expr | '' == Opt(expr) *)
+Theorem C12_sugar_or_empty : forall dw ids e, sg_or_empty dw ids e = c_opt ids (cOPT 0) e.
+Proof. exact or_empty_eq. Qed.
+
+(* expr[n] == expr*n ;  expr*n == And([expr]*n)  (n >= 2),  expr*1 == expr *)
+Theorem C12_sugar_mul_node : forall dw ids n e,
+  sg_item dw ids (KN n) None e = sg_mul dw ids n e /\ (2 <= n -> sg_mul dw ids n e = c_and dw ids cMUL (repeat e n)) /\ sg_mul dw ids 1 e = e.
+Proof. exact (fun dw ids n e => conj (item_n_eq dw ids n e) (conj (mul_eq dw ids n e) (mul_1_eq dw ids e))). Qed.
+
+(* expr[m, n] == m copies plus n - m nested optional ones:  And([expr]*m) + Opt(expr + Opt(expr + ... Opt(expr))) *)
+Theorem C12_sugar_range : forall dw ids m k e, 2 <= m ->
+  sg_range dw ids m (m + S k) e = c_add dw ids cSUM (c_and dw ids cMUL (repeat e m)) (sg_optlist dw ids k e) /\
+  sg_optlist dw ids (S k) e = c_opt ids (cOPT (S k)) (c_add dw ids (cOAND (S k)) e (sg_optlist dw ids k e)) /\
+  sg_optlist dw ids 0 e = c_opt ids (cOPT 0) e.
+Proof. exact (fun dw ids m k e H => conj (range_eq dw ids m k e H) (conj (optlist_S dw ids k e) eq_refl)). Qed.
+
+(* a + ... + b == a + SkipTo(b)("_skipped*") + b  up to the `custom` flag of the SkipTo node (set_name("...") on the sugar side
+   changes the text of its error message only).  PARTIAL: equality of the graphs modulo that flag; that `_parse` does not read
+   the flag of a SkipTo node is visible in Model/Core.v (`impl`, Skip case) but not stated as a theorem about `parse`. *)
+Theorem C12_sugar_skip_partial : forall dw ids cdw a b,
+  Forall (fun x => clear_custom_skip x = x) (and_items a ++ and_items b) ->
+  map_children clear_custom_skip (sg_skip dw ids cdw a b) = x_skip dw ids cdw a b.
+Proof. exact skip_eq. Qed.
+
+(* (a + b) + c == a + (b + c): the SAME term for all operands; == And([a, b, c]) as a term when no operand is itself an
+   unnamed action-free And (such an operand is spliced by the binary forms and kept by And([...]): see _refuted below) *)
+Theorem C12_sugar_and_assoc : forall dw ids a b c, sg_and_left dw ids a b c = sg_and_right dw ids a b c.
+Proof. exact and_left_right_eq. Qed.
+Theorem C12_sugar_and_assoc_flat_partial : forall dw ids a b c,
+  and_items a = [a] -> and_items b = [b] -> and_items c = [c] -> sg_and_left dw ids a b c = sg_and_flat dw ids [a; b; c].
+Proof. exact and_left_flat_eq. Qed.
+Theorem C12_sugar_mf_assoc : forall dw ids a b c, sg_mf_left dw ids a b c = sg_mf_right dw ids a b c.
+Proof. exact mf_left_right_eq. Qed.
+Theorem C12_sugar_mf_assoc_flat_partial : forall dw ids a b c,
+  mf_items a = [a] -> mf_items b = [b] -> mf_items c = [c] -> sg_mf_left dw ids a b c = sg_mf_flat dw ids [a; b; c].
+Proof. exact mf_left_flat_eq. Qed.
+
+(* ---- equalities of READINGS ---- *)
+(* expr*n == expr + expr + ... + expr (n operands): the streamlined chain IS the node of expr*n up to its identity, hence the
+   same reading at every fuel, for any two numberings.  PARTIAL: for operands that are not themselves an unnamed action-free And
+   (the chain splices such an operand, expr*n for n >= 3 does not: _refuted below). *)
+Theorem C12_sugar_mul_chain_partial : forall dw ids ids' n e, and_items e = [e] -> 2 <= n ->
+  x_chain dw ids n e = sg_mul dw (fun _ => ids (20 + n)) n e /\
+  forall G s f loc, peg G s f (sg_mul dw ids n e) loc = peg G s f (x_chain dw ids' n e) loc.
+Proof. exact (fun dw ids ids' n e He Hn => conj (chain_eq dw ids n e He Hn) (mul_chain_peg dw ids ids' n e He Hn)). Qed.
+
+(* expr*n reads as the n-fold sequence of expr; expr[n, ...] as n copies followed by ZeroOrMore(expr) *)
+Theorem C12_sugar_mul_reading : forall dw ids n e, 3 <= n \/ (n = 2 /\ and_items e = [e]) ->
+  forall G s f loc, peg G s (S f) (sg_mul dw ids n e) loc = peg_seq (peg G s f) (repeat e n) (eff s (sg_mul dw ids n e) loc) [].
+Proof. exact mul_reading. Qed.
+Theorem C12_sugar_atleast_reading_partial : forall dw ids n e, 2 <= n -> and_items e = [e] ->
+  forall G s f loc, peg G s (S f) (sg_atleast dw ids n e) loc =
+                    peg_seq (peg G s f) (repeat e n ++ [c_zom ids cREP e]) (eff s (sg_atleast dw ids n e) loc) [].
+Proof. exact atleast_reading. Qed.
+
+(* And([a, b, c]) reads as (a + b) + c (= a + (b + c), the same term) also when operands ARE unnamed action-free sequences,
+   which the binary forms splice (at any position: extends Flatten.v's first-position lemma).  PARTIAL: under `splice_ok` for
+   each operand - it is no such sequence, or it is a non-empty one whose own whitespace skipping is absorbed by its first
+   element (holds for every sequence led by an element that pre-parses itself: C12_splice_ok_add); the operand of
+   C12_sugar_and_assoc_flat_refuted is exactly one that violates it. *)
+Theorem C12_sugar_and_assoc_flat_reading_partial : forall dw ids a b c G s,
+  splice_ok s a -> splice_ok s b -> splice_ok s c ->
+  forall loc r, pegR G s (sg_and_flat dw ids [a; b; c]) loc r <-> pegR G s (sg_and_left dw ids a b c) loc r.
+Proof. exact and_flat_left_pegR. Qed.
+Theorem C12_splice_ok_add : forall s dw ids c a b, and_items a = [a] -> absorb_okb dw a = true -> splice_ok s (c_add dw ids c a b).
+Proof. exact splice_ok_add. Qed.
+(* splicing a nested sequence at any position of any sequence *)
+Theorem C12_and_splice_anywhere : forall G s a a' ax i i' ix c0 rest pre post, wspec a = wspec a' -> absorbs s (wspec ax) c0 ->
+  forall loc r, pegR G s (Nary a i NAnd (pre ++ Nary ax ix NAnd (c0 :: rest) :: post)) loc r <->
+                pegR G s (Nary a' i' NAnd (pre ++ (c0 :: rest) ++ post)) loc r.
+Proof. exact splice_pegR. Qed.
+
+(* ---- the parser: for an operand of the proved class, `_parse` of expr*n and of the chain answer alike (C01's peg_equiv) ---- *)
+Theorem C12_sugar_mul_in_class : forall dw G ids n e,
+  in_class G e = true -> is_white_tok e = false -> and_items e = [e] -> 1 <= n -> in_class G (sg_mul dw ids n e) = true.
+Proof. exact mul_in_class. Qed.
+Theorem C12_sugar_mul_chain_parse_partial : forall dw ids ids' n e G s, env_in_class G = true -> in_class G e = true ->
+  is_white_tok e = false -> and_items e = [e] -> 2 <= n ->
+  forall fuel loc d,
+  proj (parse (step G) fuel (mkargs (sg_mul dw ids n e) s loc d true)) =
+  proj (parse (step G) fuel (mkargs (x_chain dw ids' n e) s loc d true)).
+Proof. exact mul_chain_parse. Qed.
+(* generic: equal readings of two expressions of the class are equal answers of `_parse` *)
+Theorem C12_reading_to_parser : forall G s e1 e2, env_in_class G = true -> in_class G e1 = true -> in_class G e2 = true ->
+  (forall f loc, peg G s f e1 loc = peg G s f e2 loc) ->
+  forall fuel loc d, proj (parse (step G) fuel (mkargs e1 s loc d true)) = proj (parse (step G) fuel (mkargs e2 s loc d true)).
+Proof. exact parse_of_peg_eq. Qed.
+(* ... and equivalent fuel-free readings give the same terminating answers *)
+Theorem C12_reading_to_parser_pegR : forall G s e1 e2, env_in_class G = true -> in_class G e1 = true -> in_class G e2 = true ->
+  (forall loc r, pegR G s e1 loc r <-> pegR G s e2 loc r) ->
+  forall fuel loc d r, proj (parse (step G) fuel (mkargs e1 s loc d true)) = Some r -> r <> POut ->
+  exists fuel', forall d', proj (parse (step G) fuel' (mkargs e2 s loc d' true)) = Some r.
+Proof. exact parse_of_pegR_equiv. Qed.
+
+(* ---- where the documented equivalence is FALSE on the faithful model (and on the real code) ---- *)
+(* e = (x | y) + 'z' where x, y skip no whitespace of their own (set_whitespace_chars("")): the MatchFirst keeps the default
+   whitespace set and skipWhitespace = True, the And copies both; a parser that holds e as ONE element skips blanks before it,
+   a parser into which e has been spliced does not.  streamline splices only two-element sequences: e*3 keeps e, e+e+e splices. *)
+Definition wx_dw : list char := [9; 10; 13; 32]%N.
+Definition wx_at (id : nat) (asl : bool) (wh : list char) (cp : bool) : attrs :=
+  {| nid := id; rsname := None; modalr := true; aslist := asl; skipws := true; white := wh; callpre := cp; mayidx := false;
+     custom := false; hasmsg := true; acts := []; calltry := false; slen := 3 |}.
+Definition wx_e : expr :=
+  Nary (wx_at 1 true wx_dw true) [] NAnd
+    [Nary (wx_at 2 false wx_dw false) [] NMatchFirst [Tok (wx_at 3 false [] true) [] (KLit [120%N]); Tok (wx_at 4 false [] true) [] (KLit [121%N])];
+     Tok (wx_at 5 false wx_dw true) [] (KLit [122%N])].
+Definition wx_ids (c : nat) : nat * nat := (100 + c, 9).
+Definition wx_s : str := [120; 122; 32; 120; 122; 32; 120; 122]%N.          (* "xz xz xz" *)
+Definition wx_a : expr := Tok (wx_at 6 false wx_dw true) [] (KLit [97%N]).
+Definition wx_as : str := [97; 32; 97; 32; 120; 122]%N.                     (* "a a xz" *)
+
+Theorem C12_sugar_mul_chain_refuted : exists dw ids e n s f loc,
+  in_class [] e = true /\ peg [] s f (sg_mul dw ids n e) loc <> peg [] s f (x_chain dw ids n e) loc /\
+  peg [] s f (sg_mul dw ids n e) loc <> POut /\ peg [] s f (x_chain dw ids n e) loc <> POut.
+Proof.
+  exists wx_dw, wx_ids, wx_e, 3, wx_s, 8, 0. vm_compute. repeat split; discriminate.
+Qed.
+(* the same operand in last position: And([a, a, e]) keeps e, (a + a) + e splices it *)
+Theorem C12_sugar_and_assoc_flat_refuted : exists dw ids a b c s f loc,
+  in_class [] c = true /\ peg [] s f (sg_and_flat dw ids [a; b; c]) loc <> peg [] s f (sg_and_left dw ids a b c) loc /\
+  peg [] s f (sg_and_flat dw ids [a; b; c]) loc <> POut /\ peg [] s f (sg_and_left dw ids a b c) loc <> POut.
+Proof.
+  exists wx_dw, wx_ids, wx_a, wx_a, wx_e, wx_as, 8, 0. vm_compute. repeat split; discriminate.
+Qed.
+(* expr*0 (also expr[0], expr[0, 0]) is And([]): as a parser of its own it never matches (IndexError on self.exprs[0], turned
+   into a ParseException), although the empty sequence reads as "matches the empty string" and is spliced away (= matches)
+   as soon as it is an operand of a two-element sequence *)
+Theorem C12_sugar_mul_zero_refuted : exists dw ids e s,
+  peg [] s 3 (sg_mul dw ids 0 e) 0 = POk 0 [] /\
+  (forall f, proj (parse (step []) (S f) (mkargs (sg_mul dw ids 0 e) s 0 true true)) = Some PFail) /\
+  sg_and_left dw ids wx_a wx_a (sg_mul dw ids 0 e) = c_and dw ids cOUT [wx_a; wx_a].
+Proof.
+  exists wx_dw, wx_ids, wx_a, []. split; [reflexivity|]. split; [intros f; reflexivity|reflexivity].
+Qed.
+
+(* non-vacuity of the hypotheses above: Word-like operands satisfy them; the elaborations are the expected graphs *)
+Example C12_sugar_instance :
+  and_items wx_a = [wx_a] /\ is_white_tok wx_a = false /\ in_class [] wx_a = true /\
+  in_class [] (sg_mul wx_dw wx_ids 3 wx_a) = true /\
+  peg [] [97; 32; 97; 97; 97]%N 5 (sg_mul wx_dw wx_ids 3 wx_a) 0 = POk 4 [TStr [97%N]; TStr [97%N]; TStr [97%N]] /\
+  peg [] [97; 32; 97; 97; 97]%N 5 (x_chain wx_dw wx_ids 3 wx_a) 0 = POk 4 [TStr [97%N]; TStr [97%N]; TStr [97%N]] /\
+  peg [] [97; 32; 97; 97; 97]%N 6 (sg_atleast wx_dw wx_ids 2 wx_a) 0 = POk 5 [TStr [97%N]; TStr [97%N]; TStr [97%N]; TStr [97%N]] /\
+  peg [] [97; 32; 97; 97; 97]%N 9 (sg_range wx_dw wx_ids 2 3 wx_a) 0 = POk 4 [TStr [97%N]; TStr [97%N]; TStr [97%N]] /\
+  proj (parse (step []) 9 (mkargs (sg_range wx_dw wx_ids 2 3 wx_a) [97; 32; 97; 97; 97]%N 0 true true)) =
+    Some (POk 4 [TStr [97%N]; TStr [97%N]; TStr [97%N]]) /\
+  Forall (fun x => clear_custom_skip x = x) (and_items wx_a ++ and_items wx_a).
+Proof. vm_compute. repeat split; repeat constructor. Qed.
+
+(* non-vacuity of splice_ok with an operand that IS a sequence: c = a + a ; And([a, a, c]) and (a + a) + c are different
+   terms (3 / 4 children) with the same reading *)
+Example C12_sugar_splice_instance :
+  let c := c_add wx_dw wx_ids cIN wx_a wx_a in
+  and_items wx_a = [wx_a] /\ absorb_okb wx_dw wx_a = true /\ and_items c = [wx_a; wx_a] /\
+  sg_and_flat wx_dw wx_ids [wx_a; wx_a; c] <> sg_and_left wx_dw wx_ids wx_a wx_a c /\
+  peg [] [97; 32; 97; 97; 97]%N 5 (sg_and_flat wx_dw wx_ids [wx_a; wx_a; c]) 0 = POk 5 [TStr [97%N]; TStr [97%N]; TStr [97%N]; TStr [97%N]] /\
+  peg [] [97; 32; 97; 97; 97]%N 5 (sg_and_left wx_dw wx_ids wx_a wx_a c) 0 = POk 5 [TStr [97%N]; TStr [97%N]; TStr [97%N]; TStr [97%N]].
+Proof. vm_compute. repeat split; discriminate. Qed.
 
 (* non-vacuity *)
 Example C12_instance :
